@@ -26,6 +26,9 @@ func c10Kinds() []subjKind {
 		{"behavior(0)", "behavior", 0, func() ro.Subject[int] { return ro.NewBehaviorSubject[int](0) }},
 		{"async", "async", 0, func() ro.Subject[int] { return ro.NewAsyncSubject[int]() }},
 	}
+	// replay(0): the boundary buffer size - nothing is replayed (a guard written as `size > 0` instead of
+	// `size != unlimited` turns it into an unbounded buffer)
+	ks = append(ks, subjKind{"replay(0)", "replay", 0, func() ro.Subject[int] { return ro.NewReplaySubject[int](0) }})
 	for _, n := range []int{1, 2, -1} {
 		n := n
 		ks = append(ks, subjKind{fmt.Sprintf("replay(%d)", n), "replay", n, func() ro.Subject[int] { return ro.NewReplaySubject[int](n) }})
